@@ -11,6 +11,7 @@ import (
 	"os"
 	"path/filepath"
 	"regexp"
+	"runtime"
 	"runtime/debug"
 	"sort"
 	"strconv"
@@ -54,6 +55,8 @@ type directIn struct {
 	SegEnd    uint64 `json:"seg_end"`
 	Timescale uint64 `json:"timescale"`
 	N         int    `json:"per_minute"`
+	// Hammer: the call was one of many made at the same time from many goroutines (a replay repeats that)
+	Hammer bool `json:"called_concurrently,omitempty"`
 }
 
 func runDirect(in directIn) (o obs) {
@@ -628,6 +631,98 @@ func reconcileConsts(probe, src srcConsts) (notes, conflicts []string) {
 		cmp(fmt.Sprintf("ad duration for N=%d", n), probe.AdDur[n], sd)
 	}
 	return
+}
+
+// validateDirect checks one event returned for a segment built around the announce instant of splice
+// second k (goroutine safe, no Ctx): "" or what is wrong.
+func validateDirect(in directIn, k uint64, o obs) string {
+	ts := in.Timescale
+	if o.Class != 1 {
+		return fmt.Sprintf("no event (class %d %s) for the segment around the announce instant of splice %d s", o.Class, o.Err, k)
+	}
+	if o.PT != k*ts || uint64(o.ID) != k || uint64(o.TS) != ts || uint64(o.Dur) != adSeconds(in.N)*ts {
+		return fmt.Sprintf("emsg presentation time %d id %d timescale %d duration %d, expected splice %d s", o.PT, o.ID, o.TS, o.Dur, k)
+	}
+	sec, err := parseSection(o.Data)
+	if err != nil {
+		return "section: " + err.Error()
+	}
+	if !sec.CRCok {
+		return fmt.Sprintf("CRC-32/MPEG-2 over the section is not 0 (event %d s)", k)
+	}
+	if sec.EventID != k || sec.TimeSpecified != 1 || sec.PtsTime != (k*90000)%(1<<33) || sec.HasDuration != 1 || sec.BreakDuration != adSeconds(in.N)*90000 || sec.PtsAdjustment != 0 || sec.Tier != 0xfff {
+		return fmt.Sprintf("splice_insert event id %d pts_time %d break_duration %d pts_adjustment %d, expected event %d pts %d break %d", sec.EventID, sec.PtsTime, sec.BreakDuration, sec.PtsAdjustment, k, (k*90000)%(1<<33), adSeconds(in.N)*90000)
+	}
+	return ""
+}
+
+type hammerFail struct {
+	in   directIn
+	what string
+}
+
+// hammerDirect: many goroutines (four per core) call CreateEmsgAhead at the same time, each for its OWN
+// events (other minutes, offsets, N and timescales than the others), started together behind a barrier and
+// repeating for the given time; every returned event is validated against the call's own parameters.
+// extra (may be nil) is a call that is repeated by a few goroutines in addition (replay).
+func hammerDirect(seed int64, budget time.Duration, extra *directIn) (calls int64, fails []hammerFail) {
+	workers := 4 * runtime.GOMAXPROCS(0)
+	if workers < 16 {
+		workers = 16
+	}
+	start := make(chan struct{})
+	deadline := time.Now().Add(budget)
+	var mu sync.Mutex
+	var wg sync.WaitGroup
+	for w := 0; w < workers; w++ {
+		wg.Add(1)
+		go func(w int) {
+			defer wg.Done()
+			rr := rand.New(rand.NewSource(seed*1000 + int64(w)))
+			type ev struct {
+				in directIn
+				k  uint64
+			}
+			var evs []ev
+			for i := 0; i < 64; i++ {
+				n := 1 + rr.Intn(3)
+				ts := []uint64{1, 1000, 15360, 90000, 48000}[rr.Intn(5)]
+				k := uint64(rr.Intn(40000000))*60 + offsetsDoc[n][rr.Intn(len(offsetsDoc[n]))]
+				a := (k - 7) * ts
+				evs = append(evs, ev{directIn{Kind: "direct", SegStart: a - ts/2 - 1, SegEnd: a + ts, Timescale: ts, N: n, Hammer: true}, k})
+			}
+			if extra != nil && w%4 == 0 {
+				x := *extra
+				x.Hammer = true
+				if want := scheduledAnnouncedIn(x.SegStart, x.SegEnd, x.Timescale, x.N); len(want) == 1 {
+					evs = []ev{{x, want[0] / x.Timescale}}
+				}
+			}
+			<-start
+			local := int64(0)
+			for i := 0; time.Now().Before(deadline); i++ {
+				e := evs[i%len(evs)]
+				o := runDirect(e.in)
+				local++
+				if what := validateDirect(e.in, e.k, o); what != "" {
+					mu.Lock()
+					if len(fails) < 20 {
+						fails = append(fails, hammerFail{e.in, what})
+					}
+					mu.Unlock()
+				}
+				if i%64 == 0 {
+					runtime.Gosched()
+				}
+			}
+			mu.Lock()
+			calls += local
+			mu.Unlock()
+		}(w)
+	}
+	close(start)
+	wg.Wait()
+	return calls, fails
 }
 
 // ---------------------------------------------------------------- derived assets
@@ -1312,7 +1407,7 @@ func runC13(c *lib.Ctx) error {
 	tss := []uint64{1, 1000, 10000, 15360, 30000, 48000, 90000, 10000000}
 	var directs []directIn
 	addD := func(s, e, ts uint64, n int, kind string) {
-		directs = append(directs, directIn{"direct", s, e, ts, n})
+		directs = append(directs, directIn{Kind: "direct", SegStart: s, SegEnd: e, Timescale: ts, N: n})
 		c.Count("direct:" + kind)
 	}
 	pickN := func() int { return 1 + rng.Intn(3) }
@@ -1420,6 +1515,22 @@ func runC13(c *lib.Ctx) error {
 		}
 	}
 
+	// ------------------------------------------------------------ 1b. the same function called from many goroutines at once
+	oracleSegsExtra := 0 // oracle-only evaluations outside the server phases
+	{
+		budget := 2500 * time.Millisecond
+		if c.Thorough() {
+			budget = 10 * time.Second
+		}
+		calls, fails := hammerDirect(c.Seed, budget, nil)
+		c.Res.Distribution["direct:concurrent-calls"] = int(calls)
+		oracleSegsExtra += int(calls)
+		for _, f := range fails {
+			_, id := r.id()
+			c.Res.Inputs[id] = f.in
+			c.Fail(id, "concurrent:wrong-fields", fmt.Sprintf("CreateEmsgAhead(%d, %d, %d, %d) called while other goroutines call it for other events: %s", f.in.SegStart, f.in.SegEnd, f.in.Timescale, f.in.N, f.what), f.in)
+		}
+	}
 	// ------------------------------------------------------------ 2. direct calls of CreateSpliceInsertPayload
 	for i := 0; i < 150*scale; i++ {
 		p := scte35.SpliceInsertParams{
@@ -2031,7 +2142,7 @@ func runC13(c *lib.Ctx) error {
 		r.terms = append(r.terms, fmt.Sprintf("CCfg %d %s %d", idn, optZ(&nn), resp.Status))
 	}
 
-	c.Res.Evaluations = len(r.terms) + oracleSegs - c.Res.Distribution["segment:first-hours"] - c.Res.Distribution["segment:contiguous-minute"] - c.Res.Distribution["segment:far-minute"] - c.Res.Distribution["segment:around-announce"] - c.Res.Distribution["segment:chunked-minute"] - c.Res.Distribution["segment:crossed-minute"] - c.Res.Distribution["segment:derived-video"] - c.Res.Distribution["segment:irregular-minute"] - concTerms
+	c.Res.Evaluations = oracleSegsExtra + len(r.terms) + oracleSegs - c.Res.Distribution["segment:first-hours"] - c.Res.Distribution["segment:contiguous-minute"] - c.Res.Distribution["segment:far-minute"] - c.Res.Distribution["segment:around-announce"] - c.Res.Distribution["segment:chunked-minute"] - c.Res.Distribution["segment:crossed-minute"] - c.Res.Distribution["segment:derived-video"] - c.Res.Distribution["segment:irregular-minute"] - concTerms
 	c.Res.ModelCases = len(r.terms)
 	c.Res.DistinctNontrivial = len(r.distinct)
 	c.Res.Rule = fmt.Sprintf("direct CreateEmsgAhead calls (start/end exactly on, one tick before/after every announce instant; segments straddling a minute; random; PTS and id wrap; other N; inverted/long segments; timescale 0; uint64 wrap), direct CreateSpliceInsertPayload calls with random parameters, and video segments served by the in-process server for testpic_2s/6s/8s and the 29.97 fps WAVE asset with scte35_1/2/3: every segment of the first 3 h (10 h in the thorough tier; WAVE: sampled minutes) plus single minutes around multiples of 2^33/90000 s and up to ~57 years from the epoch (%d s of stream fetched and checked by the oracle; of the first hours the model replays a random 1/8 of the segments with an event or next to an announce instant and 1/60 of the rest, of the other windows all of the former and 1/10 of the latter; latest minute below 200000 s ends at %d s); audio segments, scte35 off, MPDs, rejected N. distinct = distinct inputs; non-trivial = an event (emsg) was produced", streamSeconds, maxSecond)
@@ -2064,6 +2175,15 @@ func replayC13(c *lib.Ctx) error {
 		in, err := lib.LoadReplayInput[directIn](c.Replay)
 		if err != nil {
 			return err
+		}
+		if in.Hammer {
+			calls, fails := hammerDirect(c.Seed, 4*time.Second, &in)
+			fmt.Printf("replay C13: CreateEmsgAhead called %d times from many goroutines at once (this call among them): %d wrong results\n", calls, len(fails))
+			for _, f := range fails {
+				c.Fail("replay", "concurrent:wrong-fields", f.what, f.in)
+				break
+			}
+			return nil
 		}
 		o := runDirect(in)
 		fmt.Printf("replay C13: CreateEmsgAhead(%d, %d, %d, %d) -> class %d pt=%d id=%d dur=%d data=% x %s\n", in.SegStart, in.SegEnd, in.Timescale, in.N, o.Class, o.PT, o.ID, o.Dur, o.Data, o.Err)
